@@ -310,6 +310,32 @@ class Lifter(ast.NodeTransformer):
         raise NotImplementedError('assign target %r' % target)
 
     def visit_Assign(self, node):
+        if len(node.targets) == 1 and isinstance(node.targets[0], (ast.Tuple, ast.List)) and \
+                any(isinstance(e, ast.Starred) for e in node.targets[0].elts):
+            # a, b, *rest, z = value   ->   t = list(value); a = t[0]; b = t[1]; rest = t[2:len(t)-1]; z = t[-1]
+            # (a too short value fails with IndexError instead of ValueError: an exception either way)
+            elts = node.targets[0].elts
+            star = [i for i, e in enumerate(elts) if isinstance(e, ast.Starred)][0]
+            after = len(elts) - star - 1
+            t = self.tmp('s')
+            stmts = [ast.Assign(targets=[_name(t, ast.Store())], value=ast.Call(func=_name('list'), args=[node.value], keywords=[]))]
+            for i, e in enumerate(elts):
+                if i < star:
+                    v = ast.Subscript(value=_name(t), slice=_const(i), ctx=ast.Load())
+                elif i == star:
+                    upper = ast.BinOp(left=ast.Call(func=_name('len'), args=[_name(t)], keywords=[]), op=ast.Sub(), right=_const(after)) if after else None
+                    v = ast.Subscript(value=_name(t), slice=ast.Slice(lower=_const(star), upper=upper), ctx=ast.Load())
+                    e = e.value
+                else:
+                    v = ast.Subscript(value=_name(t), slice=_const(i - len(elts)), ctx=ast.Load())
+                stmts.append(ast.Assign(targets=[e], value=v))
+            out = []
+            for st in stmts:
+                ast.copy_location(st, node)
+                ast.fix_missing_locations(st)
+                r = self.visit(st)
+                out += r if isinstance(r, list) else [r]
+            return out
         value = self.visit(node.value)
         if len(node.targets) == 1:
             return self.assign_target(node.targets[0], value)
